@@ -5,6 +5,7 @@ import (
 	"strings"
 
 	"github.com/vedadiyan/genql"
+	"github.com/vedadiyan/genql/vrt"
 	"verif/harness/core"
 	"verif/harness/gq"
 )
@@ -332,6 +333,29 @@ func (p *c08) RunCase(i int) *core.CaseResult {
 			if again != got {
 				r.Fail("C08|cache|nested-and-mix-interfere", fmt.Sprintf("%s on m=%s returned %s, but %s after %s had been evaluated in the same process", sql, gq.Render(full), got, again, other), map[string]any{"sql": sql, "then": other, "doc": map[string]any{"m": full}})
 			}
+		}
+		// the same statement built from the exported pieces (Parse + Prepare with zero-valued Options):
+		// for queries that read no option it must return the same
+		if got == w && !strings.Contains(q, "VAR(") && !strings.Contains(q, "CONSTANT(") && !strings.Contains(q, "ASYNC") && !strings.Contains(q, "AWAIT") {
+			func() {
+				defer func() { recover() }()
+				res := vrt.Run(gq.Seq, nil, func() {
+					stmt, err := genql.Parse(sql)
+					if err != nil {
+						return
+					}
+					pq, err := genql.Prepare(map[string]any{"m": gq.Clone(any(full)), "lo": 2.0, "tag": "x"}, stmt, &genql.Options{})
+					var prow []any
+					if err == nil {
+						prow, err = pq.Exec()
+					}
+					r.Execs++
+					if pg := gq.Render(prow); err != nil || pg != w {
+						r.Fail("C08|prepare-path|differs", fmt.Sprintf("%s on m=%s built through Parse + Prepare(doc, stmt, &Options{}) returns %s (%v); New + Exec returns %s", sql, gq.Render(full), pg, err, w), map[string]any{"sql": sql, "doc": map[string]any{"m": full}})
+					}
+				})
+				_ = res
+			}()
 		}
 		if got != w {
 			kind := "nested"
